@@ -233,3 +233,23 @@ func (f *stmtFixture) newSession(multiStatements bool) *SessionExecutor {
 	f.be.failOn = ""
 	return se
 }
+
+func respClass(r Response) (string, string) {
+	switch r.RespType {
+	case RespError:
+		if e, ok := r.Data.(error); ok && e != nil {
+			return "error", e.Error()
+		}
+		return "error", ""
+	case RespPrepare:
+		return "prepared", ""
+	case RespNoop:
+		return "noop", ""
+	case RespOK:
+		return "ok", ""
+	case RespResult:
+		return "result", ""
+	}
+	return fmt.Sprintf("resp%d", r.RespType), ""
+}
+
